@@ -98,8 +98,9 @@ def stream_replay(rep, wd, tier, seed):
 
 def _replay_faults(args):
     wd, k, slack = args
-    base = render_blocks(CODE[:k * P - slack], k)
-    cfg = write_cfg(os.path.join(wd, 'UnblockEnum-%d.cfg' % k),
+    # slack = P: the last block holds fill only (data ends on a block boundary); content all-PAD for even k
+    base = render_blocks((b'@' * (k * P) if k % 2 == 0 else CODE[:k * P])[:k * P - slack], k)
+    cfg = write_cfg(os.path.join(wd, 'UnblockEnum-%d-%d.cfg' % (k, slack)),
                     'CONSTANTS P = %d T = %d PAD = 64 K = %d Slack = %d\nSPECIFICATION Spec\nINVARIANT RoundInv\n'
                     'CHECK_DEADLOCK FALSE\n' % (P, T, k, slack))
     bad, count = [], 0
@@ -129,8 +130,10 @@ def _replay_faults(args):
 
 def fault_replay(rep, wd, tier):
     ks = (1, 2, 3, 4) if tier == 'thorough' else (1, 2)
-    with ProcessPoolExecutor(len(ks)) as ex:
-        outs = list(ex.map(_replay_faults, [(wd, k, 7 * k) for k in ks]))
+    jobs = [(wd, k, 7 * k) for k in ks] + [(wd, k, P) for k in ks if k > 1]
+    with ProcessPoolExecutor(len(jobs)) as ex:
+        outs = list(ex.map(_replay_faults, jobs))
+    ks = [j[1] for j in jobs]
     for k, o in zip(ks, outs):
         rep.states += o['dist']
         rep.transitions += o['gen']
